@@ -61,7 +61,7 @@ func genSigAlg(r *Rng, signerFam string, ownKeyAlg string) string {
 	return Pick(r, ecSigAlgs)
 }
 
-var rdnKeys = []string{"C", "O", "OU", "CN", "SERIALNUMBER", "L", "ST", "STREET", "POSTALCODE", "1.2.3.4", "2.5.4.42", "1.3.6.1.4.1.99999.1"}
+var rdnKeys = []string{"C", "O", "OU", "CN", "SERIALNUMBER", "L", "ST", "STREET", "POSTALCODE", "1.2.3.4", "2.5.4.42", "1.3.6.1.4.1.99999.1", "1.2.840.113549.1.9.1", "0.9.2342.19200300.100.1.25"}
 var words = []string{"Acme", "Test", "Root", "Sub", "Leaf", "PKI", "Dept 7", "Zone-A", "x", "Service (prod)", "O'Neil", "a.b.c", "Müller", "Ærø", "日本", "node+1", "unit:4", "A/B"}
 
 func genSubject(r *Rng, tag string) []RDN {
@@ -215,7 +215,14 @@ func genExt(r *Rng, kind string, allowKeyDerived bool) ExtSpec {
 	case "ocspNoCheck":
 		// no content
 	case "admission":
+		// professionItems is the one member the schema requires
 		pi := map[string]any{"professionItems": []string{"Prof" + fmt.Sprint(r.Intn(9))}}
+		if r.Chance(1, 8) {
+			pi["professionItems"] = []string{}
+		}
+		if r.Chance(1, 4) {
+			pi["addProfessionInfo"] = "!binary:" + b64(r.Bytes(r.Range(1, 9)))
+		}
 		if r.Bool() {
 			pi["professionOids"] = []string{genOid(r)}
 		}
@@ -223,14 +230,21 @@ func genExt(r *Rng, kind string, allowKeyDerived bool) ExtSpec {
 			pi["registrationNumber"] = fmt.Sprint(r.Intn(99999))
 		}
 		if r.Bool() {
-			pi["namingAuthority"] = map[string]any{"oid": genOid(r)}
+			pi["namingAuthority"] = Pick(r, []map[string]any{{"oid": genOid(r)}, {"text": "only text"}, {"url": "http://na.example"}, {}, {"oid": genOid(r), "url": "u", "text": "t"}})
 		}
 		adm := map[string]any{"professionInfos": []any{pi}}
+		if r.Chance(1, 6) {
+			adm["professionInfos"] = []any{pi, map[string]any{"professionItems": []string{"Second"}, "professionOids": []string{genOid(r)}}}
+		} else if r.Chance(1, 8) {
+			adm["professionInfos"] = []any{}
+		}
 		if r.Bool() {
 			adm["namingAuthority"] = map[string]any{"text": "na" + fmt.Sprint(r.Intn(9))}
 		}
 		if r.Bool() {
-			adm["admissionAuthority"] = genGeneralName(r, []string{"dns", "ip"})
+			adm["admissionAuthority"] = genGeneralName(r, []string{"dns", "ip", "mail", "url"})
+		} else if r.Chance(1, 5) {
+			adm["admissionAuthority"] = map[string]any{}
 		}
 		c := map[string]any{"admissions": []any{adm}}
 		if r.Bool() {
